@@ -20,5 +20,5 @@ void sync(Substrate& s, unsigned W, unsigned R, bool b, bool a, const std::strin
 }
 void resetMirrors(Substrate& s) { s.reset_mirrorField<Reduce_add_f_add>(); }
 } // namespace
-const c18::FieldVT c18::vt_f_add = {"f_add", "GALOIS_SYNC_STRUCTURE_REDUCE_ADD(atomic<uint32_t>)", R_ADD, K_U32, 1, true,
+const c18::FieldVT c18::vt_f_add = {"f_add", "GALOIS_SYNC_STRUCTURE_REDUCE_ADD(atomic<uint32_t>)", R_ADD, K_U32, 1, true, false,
                                     store, load, write, &bitset_f_add, sync, resetMirrors};
